@@ -87,10 +87,30 @@ func vfGenScore(rt *rapid.T, label string, special bool) float64 {
 	}
 }
 
+// vfGenScore64: fusion takes float64 scores; a quarter of the maps use values that only float64
+// tells apart (neighbours 1e-12 apart, magnitudes beyond float32).
+func vfGenScore64(rt *rapid.T, label string) float64 {
+	switch rapid.IntRange(0, 3).Draw(rt, label+"_64class") {
+	case 0:
+		return 0.25 + 1e-12*float64(rapid.IntRange(-20, 20).Draw(rt, label+"_near"))
+	case 1:
+		return float64(rapid.IntRange(-20, 20).Draw(rt, label+"_huge")) * 1e300
+	case 2:
+		return float64(rapid.IntRange(-20, 20).Draw(rt, label+"_tiny")) * 1e-300
+	default:
+		return 1e6 + 1e-7*float64(rapid.IntRange(-20, 20).Draw(rt, label+"_near_big"))
+	}
+}
+
 func vfGenScoreMap(rt *rapid.T, label string, ids []uint32, special bool) []vfIDScore {
 	var out []vfIDScore
+	wide := rapid.IntRange(0, 3).Draw(rt, label+"_float64_scores") == 0
 	for _, id := range ids {
 		if rapid.Bool().Draw(rt, label+"_has") {
+			if wide {
+				out = append(out, vfIDScore{ID: id, S: vfF(vfGenScore64(rt, label))})
+				continue
+			}
 			out = append(out, vfIDScore{ID: id, S: vfF(vfGenScore(rt, label, special))})
 		}
 	}
@@ -118,8 +138,14 @@ func vfC19Gen(rt *rapid.T) vfC19Case {
 	c.Cutoff = rapid.IntRange(-3, 6).Draw(rt, "cutoff")
 	// two score maps over a shared id pool: disjoint / nested / equal / arbitrary
 	pool := make([]uint32, rapid.IntRange(0, 12).Draw(rt, "pool"))
+	if rapid.IntRange(0, 7).Draw(rt, "big_pool") == 0 {
+		pool = make([]uint32, rapid.IntRange(13, 120).Draw(rt, "pool_big"))
+	}
 	for i := range pool {
 		pool[i] = uint32(i + 1)
+		if i%5 == 4 {
+			pool[i] = math.MaxUint32 - uint32(i)
+		}
 	}
 	switch rapid.IntRange(0, 4).Draw(rt, "map_shape") {
 	case 0: // arbitrary overlap
